@@ -1,5 +1,7 @@
 import JsonPathVerif.Theorem
 import JsonPathVerif.Regex
+import JsonPathVerif.RegexSem
+import JsonPathVerif.RegexFn
 /-! # C10 – length, count, value, match and search behave as RFC 9535 defines -/
 namespace JP.C10
 open JP
@@ -27,10 +29,54 @@ example : (match dataVal (lengthFn (.value (.str [Char.ofNat 0x1D11E, 'a']))) wi
 -- regular expressions (dialect model): whole-string vs substring
 def yes (v : Re.Verdict) : Bool := v == .yes
 /-- top-level alternation is anchored as a whole (the defect D18 made this `true`) -/
-example : yes (Re.regexFn "ab".toList "a|b".toList false) = false := by decide
-example : yes (Re.regexFn "b".toList "a|b".toList false) = true := by decide
-example : yes (Re.regexFn "xaby".toList "a|b".toList true) = true := by decide
+example : yes (Re.regexFn "ab".toList "a|b".toList false) = false := by decide +kernel
+example : yes (Re.regexFn "b".toList "a|b".toList false) = true := by decide +kernel
+example : yes (Re.regexFn "xaby".toList "a|b".toList true) = true := by decide +kernel
 /-- an invalid pattern is false, also when the wrapper would make it valid -/
-example : yes (Re.regexFn "".toList "+x*".toList false) = false := by decide
+example : yes (Re.regexFn "".toList "+x*".toList false) = false := by decide +kernel
+
+
+/-! ### `match` / `search` against the textbook semantics of regular expressions
+`Re.L r w` is the language of an expression without `^`/`$` (defined by the usual rules, no
+algorithm); `Re.M` is the positional relation that also knows the two anchors. The model's matcher
+(`Re.isMatch`, what `Regex::is_match` is compared with) decides both, for every expression and
+every string – including the fuel it runs on. -/
+
+/-- the matcher finds a match iff one exists (sound, complete, enough fuel) -/
+theorem matcher_decides (r : Re.Rx) (s : Str) :
+    Re.isMatch r s = true ↔ ∃ i j, i ≤ s.length ∧ Re.M s.toArray r i j := Re.isMatch_iff r s
+/-- `match(s, p)`: true iff the **entire** string is in the language of `p` (RFC 9535 2.4.6) -/
+theorem match_is_whole_string (r : Re.Rx) (hr : Re.anchorFree r = true) (s : Str) :
+    Re.isMatch (Re.anchored r) s = true ↔ Re.L r s := Re.match_whole r hr s
+/-- `search(s, p)`: true iff **some substring** is in the language of `p` (RFC 9535 2.4.7) -/
+theorem search_is_some_substring (r : Re.Rx) (hr : Re.anchorFree r = true) (s : Str) :
+    Re.isMatch r s = true ↔ ∃ pre w post, s = pre ++ w ++ post ∧ Re.L r w := Re.search_substring r hr s
+
+/-- `match(s, p)` as computed from the two strings: whenever the wrapped pattern parses to the anchored form of an anchor-free `r`
+(see the examples below), the answer is `yes` exactly if the whole of `s` is in the language of `r` -/
+theorem match_fn (s p : Str) (r : Re.Rx) (hp : Re.parse (Re.prepare p false) = .ok (Re.anchored r)) (hr : Re.anchorFree r = true) :
+    Re.regexFn s p false = .yes ↔ Re.L r s := Re.regexFn_match s p r hp hr
+/-- `search(s, p)` as computed from the two strings -/
+theorem search_fn (s p : Str) (r : Re.Rx) (hp : Re.parse (Re.prepare p true) = .ok r) (hr : Re.anchorFree r = true) :
+    Re.regexFn s p true = .yes ↔ ∃ pre w post, s = pre ++ w ++ post ∧ Re.L r w := Re.regexFn_search s p r hp hr
+/-- a second argument that is not a regular expression gives LogicalFalse -/
+theorem invalid_pattern_is_false (s p : Str) (sub : Bool) (hp : Re.parse (Re.prepare p sub) = .invalid) : Re.regexFn s p sub = .no :=
+  Re.regexFn_invalid s p sub hp
+
+-- the wrapper `^(?:p)$` parses to `anchored` of what `p` parses to (tests on literals, not a theorem)
+def sameRx : Re.Rx → Re.Rx → Bool
+  | .eps, .eps | .any, .any | .bol, .bol | .eol, .eol => true
+  | .chr c, .chr d => c == d
+  | .cls n i, .cls m j => n == m && i == j
+  | .seq a b, .seq c d | .alt a b, .alt c d => sameRx a c && sameRx b d
+  | .star a, .star b | .plus a, .plus b | .opt a, .opt b => sameRx a b
+  | _, _ => false
+def parsedAs (p : String) (r : Re.Rx) : Bool := match Re.parse p.toList with | .ok r' => sameRx r' r | _ => false
+example : parsedAs "^(?:a|b)$" (Re.anchored (.alt (.seq .eps (.chr 'a')) (.seq .eps (.chr 'b')))) = true := by decide +kernel
+example : parsedAs "a|b" (.alt (.seq .eps (.chr 'a')) (.seq .eps (.chr 'b'))) = true := by decide +kernel
+-- non-vacuity: an anchor-free expression, a word of its language, and the three theorems at work
+example : Re.anchorFree (.seq (.star (.chr 'a')) (.chr 'b')) = true := rfl
+example : Re.L (.seq (.star (.chr 'a')) (.chr 'b')) ['a', 'a', 'b'] :=
+  .seq (u := ['a', 'a']) (.starCons (u := ['a']) (.chr 'a') (.starCons (u := ['a']) (v := []) (.chr 'a') .starNil)) (.chr 'b')
 
 end JP.C10
